@@ -42,6 +42,7 @@ extern const char *verif_class_names[];		/* NULL terminated, <= 32 */
 extern const char *verif_rule;			/* non-trivial rule + generator, prose */
 extern int verif_fork_per_case;			/* run every case in its own child */
 extern int verif_case_timeout_ms;		/* watchdog per case (fork mode) */
+extern int verif_nondeterministic;		/* optional (weak, default 0) */
 extern int verif_hang_is_violation;		/* property is about not hanging */
 extern size_t verif_max_size;			/* largest case in bytes */
 extern size_t verif_min_size;			/* smallest useful case in bytes */
